@@ -12,6 +12,9 @@ import (
 	pb "github.com/godaddy/asherah/server/go/api"
 	"github.com/godaddy/asherah/server/go/pkg/server"
 	"google.golang.org/grpc/metadata"
+
+	"asherahverif/explore"
+	"asherahverif/shim/vsched"
 )
 
 // ---------------------------------------------------------------------------------
@@ -356,6 +359,10 @@ func CheckC19(r *Report) {
 	if len(r.Samples) == 0 {
 		r.Samples = append(r.Samples, map[string]interface{}{"requests": []string{"get(p1)", "enc", "dec(own)"}})
 	}
+	if r.TimeLeft() {
+		c19Sched(r)
+		r.Rule += " || PLUS two concurrent streams (each: get-session, encrypt; then get-session, decrypt, encrypt) on one AppEncryption over the instrumented SDK, every interleaving up to the preemption bound, with and without session caching"
+	}
 }
 
 func c19Replay(v *Viol) []string {
@@ -381,4 +388,105 @@ func c19Replay(v *Viol) []string {
 		out = append(out, kv.Sig+": "+kv.Msg)
 	}
 	return out
+}
+
+// ---------------------------------------------------------------------------------
+// C19 (concurrent streams): two streams served by one AppEncryption at the same time,
+// every interleaving up to the preemption bound (SDK instrumented, doubles as elsewhere).
+// ---------------------------------------------------------------------------------
+
+type c19SchedScenario struct {
+	name  string
+	spec  PolicySpec
+	parts [2]string
+}
+
+func (sc c19SchedScenario) body(c *explore.Ctx) {
+	vsched.BeginQuiet()
+	w := NewWorld()
+	f := w.NewFactory(sc.spec)
+	app := server.VerifNewAppEncryption(f)
+	vsched.EndQuiet()
+	type res struct {
+		err  error
+		pan  string
+		out  []*pb.SessionResponse
+		done bool
+	}
+	results := make([]*res, 2)
+	for i := 0; i < 2; i++ {
+		i := i
+		results[i] = &res{}
+		vsched.GoNamed(fmt.Sprintf("stream%d", i), func() {
+			r := results[i]
+			pay := []byte(fmt.Sprintf("stream-%d-payload", i))
+			// first half: get-session + encrypt; second half (own stream again): decrypt what was encrypted
+			st := &memStream{in: []*pb.SessionRequest{reqGet(sc.parts[i]), reqEnc(pay)}}
+			r.pan = safe(func() { r.err = app.Session(st) })
+			r.out = st.out
+			if r.pan == "" && r.err == nil && len(st.out) == 2 && st.out[1].GetEncryptResponse() != nil {
+				st2 := &memStream{in: []*pb.SessionRequest{reqGet(sc.parts[i]), reqDec(cloneRec(st.out[1].GetEncryptResponse().GetDataRowRecord())), reqEnc(pay)}}
+				r.pan = safe(func() { r.err = app.Session(st2) })
+				r.out = append(r.out, st2.out...)
+				if len(st2.out) == 3 && !bytes.Equal(st2.out[1].GetDecryptResponse().GetData(), pay) {
+					r.err = fmt.Errorf("decrypt on the second stream returned %v", st2.out[1])
+				}
+			}
+			r.done = true
+		})
+	}
+	vsched.Quiesce()
+	for i, r := range results {
+		switch {
+		case !r.done:
+			c.Failf("blocked", "stream %d never finished: %v", i, vsched.Blocked())
+		case r.pan != "":
+			c.Failf("panic", "stream %d panicked: %s", i, r.pan)
+		case r.err != nil:
+			c.Failf("stream-error", "stream %d: %v", i, r.err)
+		case len(r.out) != 5:
+			c.Failf("reply-count", "stream %d got %d responses for 5 requests", i, len(r.out))
+		default:
+			for j, o := range r.out {
+				if isErrResp(o) {
+					c.Failf("error-response", "stream %d response %d is an error: %s", i, j, o.GetErrorResponse().GetMessage())
+				}
+			}
+		}
+	}
+	if n := len(w.TF.UseAfterClose); n > 0 {
+		c.Failf("use-after-destroy", "%v", w.TF.UseAfterClose)
+	}
+	vsched.BeginQuiet()
+	f.Close()
+	vsched.EndQuiet()
+	for _, s := range w.TF.Secrets {
+		if !s.Closed {
+			c.Failf("leak-after-close", "secret#%d still live after both streams ended and the factory was closed", s.ID)
+			break
+		}
+	}
+}
+
+func c19SchedScenarios() []c19SchedScenario {
+	return []c19SchedScenario{
+		{"two-partitions-default", SpecDefault, [2]string{"p1", "p2"}},
+		{"same-partition-default", SpecDefault, [2]string{"p1", "p1"}},
+		{"two-partitions-session-cache-1", SpecSessions("slru", 1), [2]string{"p1", "p2"}},
+		{"same-partition-session-cache", SpecSessions("slru", 2), [2]string{"p1", "p1"}},
+	}
+}
+
+func c19Sched(r *Report) {
+	bound := 1
+	if r.Thorough() {
+		bound = 2
+	}
+	for _, sc := range c19SchedScenarios() {
+		sc := sc
+		t0 := time.Now()
+		cfg := explore.Config{Name: "C19s/" + sc.name, Preemptions: bound, Deviations: 0, HBCache: true, Deadline: r.Deadline, MaxViolations: 5}
+		res := explore.Explore(cfg, sc.body)
+		r.AddExplore(res, fmt.Sprintf("preemption bound %d", bound), time.Since(t0).Seconds())
+	}
 }
